@@ -114,6 +114,17 @@ package builder
 //@   modifies dirclosed[arg0]
 //@   ensures dirclosed(arg0) == old(dirclosed(arg0)) + 1
 
+//@ stub (pkg/builder.BuildDirectoryCreator).GetBuildDirectory
+//@   pure -- the base creator's own acquisitions and directories are accounted to the directory it returns, not to this call
+//@   ensures r2 == nil ==> r0 != nil
+//@ stub (pkg/builder.BuildDirectory).Mkdir
+//@   pure
+//@ stub (pkg/builder.BuildDirectory).Remove
+//@   pure
+//@ stub (pkg/builder.BuildDirectory).EnterBuildDirectory
+//@   pure
+//@   ensures r1 == nil ==> r0 != nil
+
 // One Release per successful Acquire on every path: on success the returned
 // directory owns the acquisition, on failure nothing stays acquired.
 //@ func (*cleanBuildDirectoryCreator).GetBuildDirectory
@@ -137,6 +148,7 @@ package builder
 //@   ensures parent-kept-on-success: r2 == nil ==> dirclosed(parentDirectory) == 0
 //@ func (*sharedBuildDirectory).Close
 //@   props C12
+//@   requires d.BuildDirectory != d.parentDirectory
 //@   ensures child-removed-always: removedall(d.parentDirectory) == 1
 //@   ensures parent-closed-always: dirclosed(d.parentDirectory) == 1
-//@   ensures child-closed: dirclosed(d.BuildDirectory) == 1 || d.BuildDirectory == d.parentDirectory
+//@   ensures child-closed: dirclosed(d.BuildDirectory) == 1
